@@ -25,6 +25,10 @@ class C09(RecorderProp):
         for i, r in enumerate(impl):
             if r['idle'] != IDLE:
                 fails.append('run %d: recorder not idle afterwards: %r' % (i, r['idle']))
+        for i, (run, r) in enumerate(zip(case['runs'], impl)):
+            if run['run'] == 'play' and any(k != 'get' for k, _ in r['log']):
+                fails.append('run %d: a replay created / saved / aborted a recording (recorder was recording while replaying): %r'
+                             % (i, r['log']))
         probe = rs.impl_public([impl[-1]])[0]
         if probe != impl[-1]['_fresh_probe']:
             diff = [k for k in probe if probe[k] != impl[-1]['_fresh_probe'].get(k)]
